@@ -22,8 +22,13 @@
 //!         | 'Y' view* ')'                    [AnyView; N], N = 1..3
 //!         | 'W' view                         OwnedView::new(view) (reactive_graph/owned.rs)
 //!         | 'F' view                         the closure `move || view` (reactive_graph/mod.rs, RenderEffect)
+//!         | 'J' kind ('e'|'t') (hex ';')* ']' keyed(<iterator>, ..): the `each` source of a keyed list / `<For>` by kind:
+//!                                            0 Vec | 1 [String; n] (n <= 3) | 2 (0..n).map(..) | 3 .filter(..) | 4 iter::from_fn
+//!                                            | 5 .flat_map(Some) | 6 a.chain(b) | 7 once(k0).chain(rest) (n >= 1) | 8 Option (n <= 1);
+//!                                            size hints exact (0,1,2,6,7,8) or with lower bound 0 (3,4,5); 'e': items `<b>{key}</b>`, 't': `{key}`
 //!         | 'X' fid ';' view                 Suspend::new(async { rx_fid.await; view }) (reactive_graph/suspense.rs); fid = 0..15,
-//!                                            a oneshot channel the harness completes; `view` holds no Suspend; only in `shyd`/`sfrag`
+//!                                            a oneshot channel the harness completes; `view` may hold Suspends that hold none
+//!                                            (one nested level); only in `shyd`/`sfrag`
 //!         | 'Q' (fid '.' hex ';')* ']'       keyed(keys) with item view `<b>{Suspend::new(async { rx_fid.await; key })}</b>`
 //!   attr := 'A' hex ';' hex ';'              .attr(name, String)
 //!         | 'B' hex ';' ('0'|'1')            .attr(name, bool)
@@ -130,6 +135,22 @@ enum V {
     Susp(usize, Box<V>),
     /// keyed list whose items are `<b>{Suspend::new(async { rx_fid.await; key })}</b>`
     KeyedSusp(Vec<(usize, String)>),
+    /// keyed list fed by an iterator of the given kind (0..8, see `keyed_it`); `elem`: items `<b>{key}</b>`, else `{key}`
+    KeyedIt { kind: u8, elem: bool, keys: Vec<String> },
+}
+
+/// the iterator kinds a keyed list is fed with, and the size hint of each for n items:
+/// 0 Vec (n, Some(n)) | 1 array [String; n], n <= 3 (n, Some(n)) | 2 (0..n).map(..) (n, Some(n)) | 3 .filter(..) (0, Some(n))
+/// | 4 iter::from_fn (0, None) | 5 .flat_map(|k| Some(k)) (0, ..) | 6 a.chain(b) (n, Some(n)) | 7 once(k0).chain(rest), n >= 1
+/// | 8 Option::into_iter, n <= 1
+fn it_kind_ok(kind: u8, n: usize) -> bool {
+    match kind {
+        0 | 2 | 3 | 4 | 5 | 6 => true,
+        1 => n <= 3,
+        7 => n >= 1,
+        8 => n <= 1,
+        _ => false,
+    }
 }
 
 fn hx(s: &str) -> String {
@@ -233,6 +254,16 @@ fn enc_v(v: &V, o: &mut String) {
         V::Susp(f, x) => {
             o.push_str(&format!("X{f};"));
             enc_v(x, o);
+        }
+        V::KeyedIt { kind, elem, keys } => {
+            o.push('J');
+            o.push((b'0' + *kind) as char);
+            o.push(if *elem { 'e' } else { 't' });
+            for k in keys {
+                o.push_str(&hx(k));
+                o.push(';');
+            }
+            o.push(']');
         }
         V::KeyedSusp(ks) => {
             o.push('Q');
@@ -393,10 +424,31 @@ impl<'a> D<'a> {
                 let f: usize = self.field()?.parse().ok()?;
                 let x = self.view()?;
                 // one level: the view a `Suspend` resolves to holds no `Suspend`
-                if f > 15 || has_susp(&x) {
+                // at most one `Suspend` level inside the value of a `Suspend`
+                if f > 15 || susp_depth(&x) > 1 {
                     return Option::None;
                 }
                 V::Susp(f, Box::new(x))
+            }
+            b'J' => {
+                let kind = self.byte()?.checked_sub(b'0')?;
+                let elem = match self.byte()? {
+                    b'e' => true,
+                    b't' => false,
+                    _ => return Option::None,
+                };
+                let mut keys = vec![];
+                loop {
+                    if *self.s.get(self.i)? == b']' {
+                        self.i += 1;
+                        break;
+                    }
+                    keys.push(self.hex()?);
+                }
+                if !it_kind_ok(kind, keys.len()) {
+                    return Option::None;
+                }
+                V::KeyedIt { kind, elem, keys }
             }
             b'Q' => {
                 let mut items = vec![];
@@ -561,6 +613,12 @@ fn any_e(v: &V, env: &Option<Env>) -> Option<AnyView> {
         V::Keyed(keys) => keyed(keys.clone(), |k: &String| k.clone(), |_, k: String| (|_: usize| (), el::b().child(k)))
             .into_any(),
         V::KeyedText(keys) => keyed(keys.clone(), |k: &String| k.clone(), |_, k: String| (|_: usize| (), k)).into_any(),
+        V::KeyedIt { kind, elem, keys } => {
+            if !it_kind_ok(*kind, keys.len()) {
+                return Option::None;
+            }
+            keyed_it(*kind, *elem, keys.clone())
+        }
         V::Ok(x) => Result::<AnyView, std::fmt::Error>::Ok(any_e(x, env)?).into_any(),
         V::Err => Result::<AnyView, std::fmt::Error>::Err(std::fmt::Error).into_any(),
         V::Num(n) => (*n).into_any(),
@@ -633,6 +691,63 @@ fn any(v: &V) -> Option<AnyView> {
     any_e(v, &Option::None)
 }
 
+/// `keyed(<iterator of kind `kind` over keys>, key, view)`: the `each` source of a keyed list / `<For>`
+fn keyed_it(kind: u8, elem: bool, keys: Vec<String>) -> AnyView {
+    macro_rules! mk {
+        ($it:expr) => {
+            if elem {
+                keyed($it, |k: &String| k.clone(), |_, k: String| (|_: usize| (), el::b().child(k))).into_any()
+            } else {
+                keyed($it, |k: &String| k.clone(), |_, k: String| (|_: usize| (), k)).into_any()
+            }
+        };
+    }
+    let n = keys.len();
+    match kind {
+        0 => mk!(keys),
+        1 => {
+            let mut k = keys.into_iter();
+            match n {
+                0 => {
+                    let a: [String; 0] = [];
+                    mk!(a)
+                }
+                1 => mk!([k.next().unwrap()]),
+                2 => mk!([k.next().unwrap(), k.next().unwrap()]),
+                _ => mk!([k.next().unwrap(), k.next().unwrap(), k.next().unwrap()]),
+            }
+        }
+        2 => mk!((0..n).map(move |i| keys[i].clone())),
+        3 => mk!(keys.into_iter().filter(|k: &String| k.len() < 1000)),
+        4 => {
+            let mut it = keys.into_iter();
+            mk!(std::iter::from_fn(move || it.next()))
+        }
+        5 => mk!(keys.into_iter().flat_map(Some)),
+        6 => {
+            let mut a = keys;
+            let b = a.split_off(n / 2);
+            mk!(a.into_iter().chain(b))
+        }
+        7 => {
+            let mut it = keys.into_iter();
+            let first = it.next().unwrap();
+            mk!(std::iter::once(first).chain(it))
+        }
+        _ => mk!(keys.into_iter().next()),
+    }
+}
+
+fn susp_depth(v: &V) -> usize {
+    match v {
+        V::Susp(_, x) => 1 + susp_depth(x),
+        V::KeyedSusp(_) => 1,
+        V::Elem { kids, .. } | V::Tuple(kids) | V::Vec(kids) | V::Array(kids) => kids.iter().map(susp_depth).max().unwrap_or(0),
+        V::Some(x) | V::Left(x) | V::Right(x) | V::Ok(x) | V::Of3(_, x) | V::Owned(x) | V::Closure(x) | V::Inert(x) => susp_depth(x),
+        _ => 0,
+    }
+}
+
 fn has_susp(v: &V) -> bool {
     match v {
         V::Susp(..) | V::KeyedSusp(_) => true,
@@ -644,7 +759,10 @@ fn has_susp(v: &V) -> bool {
 
 fn fids_of(v: &V, out: &mut Vec<usize>) {
     match v {
-        V::Susp(f, _) => out.push(*f),
+        V::Susp(f, x) => {
+            out.push(*f);
+            fids_of(x, out)
+        }
         V::KeyedSusp(items) => out.extend(items.iter().map(|(f, _)| *f)),
         V::Elem { kids, .. } | V::Tuple(kids) | V::Vec(kids) | V::Array(kids) => kids.iter().for_each(|k| fids_of(k, out)),
         V::Some(x) | V::Left(x) | V::Right(x) | V::Ok(x) | V::Of3(_, x) | V::Owned(x) | V::Closure(x) => fids_of(x, out),
@@ -1306,6 +1424,7 @@ fn seq_tags(ks: &[V], in_elem: bool, t: &mut BTreeSet<String>) {
                 | V::Owned(_)
                 | V::Susp(..)
                 | V::KeyedSusp(_)
+                | V::KeyedIt { .. }
         );
         if matches!(k, V::Inert(_)) {
             t.insert(
@@ -1321,7 +1440,7 @@ fn seq_tags(ks: &[V], in_elem: bool, t: &mut BTreeSet<String>) {
                 .into(),
             );
         }
-        if matches!(k, V::Keyed(x) | V::KeyedText(x) if x.is_empty()) || matches!(k, V::Err) {
+        if matches!(k, V::Keyed(x) | V::KeyedText(x) | V::KeyedIt { keys: x, .. } if x.is_empty()) || matches!(k, V::Err) {
             if i > 0 && matches!(ks[i - 1], V::Text(_)) && i + 1 < ks.len() && matches!(ks[i + 1], V::Text(_)) {
                 t.insert("marker-between-texts".into());
             }
@@ -1443,11 +1562,35 @@ fn v_tags(v: &V, t: &mut BTreeSet<String>) {
             v_tags(x, t);
         }
         V::Susp(_, x) => {
-            t.insert("suspend".into());
+            t.insert(if has_susp(x) { "suspend-nested" } else { "suspend" }.into());
             v_tags(x, t);
         }
         V::KeyedSusp(_) => {
             t.insert("keyed-suspend-items".into());
+        }
+        V::KeyedIt { kind, elem, keys } => {
+            t.insert(if keys.is_empty() { "keyed-empty" } else if *elem { "keyed" } else { "keyed-text-items" }.into());
+            t.insert(
+                match kind {
+                    0 => "each-vec",
+                    1 => "each-array",
+                    2 => "each-range-map",
+                    3 => "each-filter",
+                    4 => "each-from-fn",
+                    5 => "each-flat-map",
+                    6 => "each-chain",
+                    7 => "each-once-chain",
+                    _ => "each-option",
+                }
+                .into(),
+            );
+            t.insert(
+                match kind {
+                    3 | 4 | 5 => if keys.is_empty() { "size-hint-zero-empty" } else { "size-hint-zero-nonempty" },
+                    _ => "size-hint-exact",
+                }
+                .into(),
+            );
         }
     }
 }
@@ -1489,6 +1632,11 @@ fn diff_tags(a: &V, b: &V, t: &mut BTreeSet<String>) {
         (V::Susp(_, x), V::Susp(_, y)) => {
             t.insert("suspend-rebuild".into());
             diff_tags(x, y, t)
+        }
+        (V::KeyedIt { kind: k1, elem: e1, keys: x }, V::KeyedIt { kind: k2, elem: e2, keys: y }) if k1 == k2 && e1 == e2 => {
+            if x != y {
+                t.insert("keyed-change".into());
+            }
         }
         (V::KeyedSusp(x), V::KeyedSusp(y)) => {
             if x.iter().map(|i| &i.1).ne(y.iter().map(|i| &i.1)) {
@@ -1754,8 +1902,19 @@ fn gen_ext(r: &mut Rng, depth: usize, anc: &mut Vec<&'static str>) -> V {
             Some(x) => V::Inert(Box::new(x)),
             Option::None => V::Text(gen_text(r)),
         },
-        3 | 4 => V::Keyed(gen_keys(r, 0, 3)),
-        5 => V::KeyedText(gen_keys(r, 0, 3)),
+        3 | 4 | 5 => {
+            let keys = gen_keys(r, 0, 3);
+            let elem = r.chance(2, 3);
+            let kind = r.below(9) as u8;
+            if r.chance(2, 3) && it_kind_ok(kind, keys.len()) {
+                // the `each` source: Vec, array, range-map, filter, from_fn, flat_map, chain, once, Option
+                V::KeyedIt { kind, elem, keys }
+            } else if elem {
+                V::Keyed(keys)
+            } else {
+                V::KeyedText(keys)
+            }
+        }
         6 => {
             if r.chance(1, 2) {
                 V::Err
@@ -1843,7 +2002,7 @@ fn gen_v(r: &mut Rng, depth: usize, anc: &mut Vec<&'static str>) -> V {
 fn mutate(r: &mut Rng, v: &V, depth: usize, anc: &mut Vec<&'static str>) -> V {
     // now and then a different view altogether (AnyView with another TypeId: replace path)
     // (not for a keyed list of strings: see the arm below)
-    if r.chance(1, 25) && !matches!(v, V::KeyedText(_)) {
+    if r.chance(1, 25) && !matches!(v, V::KeyedText(_) | V::KeyedIt { elem: false, .. }) {
         return gen_v(r, depth.min(2), anc);
     }
     match v {
@@ -1999,7 +2158,22 @@ fn mutate(r: &mut Rng, v: &V, depth: usize, anc: &mut Vec<&'static str>) -> V {
         V::Closure(x) => V::Closure(Box::new(mutate(r, x, depth.saturating_sub(1), anc))),
         V::Susp(f, x) => {
             let y = mutate(r, x, depth.saturating_sub(1), anc);
-            V::Susp(*f, Box::new(if has_susp(&y) { (**x).clone() } else { y }))
+            V::Susp(*f, Box::new(if susp_depth(&y) > 1 { (**x).clone() } else { y }))
+        }
+        V::KeyedIt { kind, elem, keys } => {
+            // as for `Keyed` / `KeyedText`; the iterator kind stays (now and then another one: a different Rust type)
+            let out = match mutate(r, &if *elem { V::Keyed(keys.clone()) } else { V::KeyedText(keys.clone()) }, depth, anc) {
+                V::Keyed(o) | V::KeyedText(o) => o,
+                _ => keys.clone(),
+            };
+            let kind2 = if *elem && r.chance(1, 8) { r.below(9) as u8 } else { *kind };
+            if it_kind_ok(kind2, out.len()) {
+                V::KeyedIt { kind: kind2, elem: *elem, keys: out }
+            } else if it_kind_ok(*kind, out.len()) {
+                V::KeyedIt { kind: *kind, elem: *elem, keys: out }
+            } else {
+                V::KeyedIt { kind: *kind, elem: *elem, keys: keys.clone() }
+            }
         }
         V::KeyedSusp(items) => {
             let mut out = items.clone();
@@ -2141,6 +2315,31 @@ fn small_scope() -> Vec<(String, Vec<V>, Vec<V>)> {
     add("owned-view", vec![V::Owned(Box::new(t("a"))), t("s")], vec![V::Owned(Box::new(t("b"))), t("s")]);
     add("closure", vec![t("a"), V::Closure(Box::new(t("c"))), t("s")], vec![t("a"), V::Closure(Box::new(e("b", vec![t("d")]))), t("s")]);
     add("closure-first", vec![e("div", vec![V::Closure(Box::new(V::None)), t("s")])], vec![e("div", vec![V::Closure(Box::new(sm(t("x")))), t("s")])]);
+    // the `each` source of a keyed list: every iterator kind x empty / one / three items x position x item type
+    for kind in 0u8..9 {
+        for (nn, keys, keys_b) in [
+            ("0", ks(&[]), ks(&["1"])),
+            ("1", ks(&["1"]), ks(&[])),
+            ("3", ks(&["1", "2", "3"]), ks(&["3", "1", "4"])),
+        ] {
+            for elem in [true, false] {
+                if !it_kind_ok(kind, keys.len()) {
+                    continue;
+                }
+                // string items: only changes at the end of the list (see `mutate`)
+                let kb = if elem { keys_b.clone() } else if keys.is_empty() { ks(&["1"]) } else { keys[..keys.len() - 1].to_vec() };
+                let kb = if it_kind_ok(kind, kb.len()) { kb } else { keys.clone() };
+                let a = V::KeyedIt { kind, elem, keys: keys.clone() };
+                let b = V::KeyedIt { kind, elem, keys: kb };
+                let it = if elem { "e" } else { "t" };
+                add(&format!("each{kind}-{nn}{it}-alone"), vec![a.clone()], vec![b.clone()]);
+                add(&format!("each{kind}-{nn}{it}-between"), vec![t("a"), a.clone(), t("z")], vec![t("a"), b.clone(), t("z")]);
+                add(&format!("each{kind}-{nn}{it}-in-elem"), vec![e("nav", vec![a.clone()]), t("s")], vec![e("nav", vec![b.clone()]), t("s")]);
+                add(&format!("each{kind}-{nn}{it}-after-elem"), vec![e("div", vec![e("i", vec![]), a, e("em", vec![])])],
+                    vec![e("div", vec![e("i", vec![]), b, e("em", vec![])])]);
+            }
+        }
+    }
     // AnyView with another type on rebuild
     add("any-replace", vec![t("a"), e("b", vec![t("x")]), t("c")], vec![t("a"), t("plain"), t("c")]);
     out
@@ -2178,7 +2377,7 @@ fn pos_after(v: &V, pos: Pos) -> Pos {
     match v {
         V::Text(_) | V::Num(_) | V::ArcStr(_) | V::CowStr(_) => Pos::AfterText,
         V::Unit | V::None | V::Err | V::Elem { .. } | V::Inert(_) => Pos::Next,
-        V::Vec(_) | V::Keyed(_) | V::KeyedText(_) | V::KeyedSusp(_) => Pos::Next,
+        V::Vec(_) | V::Keyed(_) | V::KeyedText(_) | V::KeyedSusp(_) | V::KeyedIt { .. } => Pos::Next,
         V::Tuple(ks) | V::Array(ks) => ks.iter().fold(pos, |p, k| pos_after(k, p)),
         V::Some(x) | V::Left(x) | V::Right(x) | V::Ok(x) | V::Of3(_, x) | V::Owned(x) | V::Closure(x) | V::Susp(_, x) => {
             pos_after(x, pos)
@@ -2187,22 +2386,29 @@ fn pos_after(v: &V, pos: Pos) -> Pos {
 }
 
 /// every pending `Suspend` of `v` leaves the position the server continues with (in-order: `NextChild`;
-/// out-of-order: the position it started from)
-fn guesses_right(v: &V, pos: Pos, ooo: bool, d0: &[usize]) -> bool {
+/// out-of-order: the position it started from); `later`: `v` is (part of) the value of a `Suspend` that was pending at
+/// render time — whether a `Suspend` in it is ready when it is rendered is not known, so every one of them must
+fn guesses_right(v: &V, pos: Pos, ooo: bool, d0: &[usize], later: bool) -> bool {
     match v {
-        V::Elem { kids, .. } => seq_guesses_right(kids, Pos::First, ooo, d0),
-        V::Tuple(ks) | V::Array(ks) | V::Vec(ks) => seq_guesses_right(ks, pos, ooo, d0),
+        V::Elem { kids, .. } => seq_guesses_right(kids, Pos::First, ooo, d0, later),
+        V::Tuple(ks) | V::Array(ks) | V::Vec(ks) => seq_guesses_right(ks, pos, ooo, d0, later),
         V::Some(x) | V::Left(x) | V::Right(x) | V::Ok(x) | V::Of3(_, x) | V::Owned(x) | V::Closure(x) => {
-            guesses_right(x, pos, ooo, d0)
+            guesses_right(x, pos, ooo, d0, later)
         }
-        V::Susp(f, x) => d0.contains(f) || pos_after(x, pos) == if ooo { pos } else { Pos::Next },
+        V::Susp(f, x) => {
+            if !later && d0.contains(f) {
+                guesses_right(x, pos, ooo, d0, false)
+            } else {
+                guesses_right(x, pos, ooo, d0, true) && pos_after(x, pos) == if ooo { pos } else { Pos::Next }
+            }
+        }
         _ => true,
     }
 }
 
-fn seq_guesses_right(ks: &[V], mut pos: Pos, ooo: bool, d0: &[usize]) -> bool {
+fn seq_guesses_right(ks: &[V], mut pos: Pos, ooo: bool, d0: &[usize], later: bool) -> bool {
     for k in ks {
-        if !guesses_right(k, pos, ooo, d0) {
+        if !guesses_right(k, pos, ooo, d0, later) {
             return false;
         }
         pos = pos_after(k, pos);
@@ -2212,8 +2418,8 @@ fn seq_guesses_right(ks: &[V], mut pos: Pos, ooo: bool, d0: &[usize]) -> bool {
 
 fn in_position_class(mode: &str, d0: &[usize], a: &[V]) -> bool {
     match mode {
-        "io" => !seq_guesses_right(a, Pos::First, false, d0),
-        "ooo" => !seq_guesses_right(a, Pos::First, true, d0),
+        "io" => !seq_guesses_right(a, Pos::First, false, d0, false),
+        "ooo" => !seq_guesses_right(a, Pos::First, true, d0, false),
         _ => false,
     }
 }
@@ -2329,6 +2535,50 @@ fn susp_scope(f: &mut impl std::io::Write) -> std::io::Result<()> {
                 for (on, d0, steps) in &orders {
                     for mode in ["io", "ooo", "res"] {
                         write_shyd(f, &format!("ss-susp2-{cn}-{pn}-{}-{on}-{mode}", mid as u8), mode, d0, steps, &a, &a)?;
+                    }
+                }
+            }
+        }
+    }
+    // a Suspend inside the value of a Suspend: outer before inner, inner before outer, together, one of them ready at
+    // render time, both at the very end; in every server form
+    let nested: Vec<(&str, V, V)> = vec![
+        ("elems", V::Tuple(vec![e("em", vec![t("o1")]), sx(1, e("b", vec![t("inner")])), e("i", vec![t("o2")])]),
+            V::Tuple(vec![e("em", vec![t("O1")]), sx(1, e("b", vec![t("INNER")])), e("i", vec![t("O2")])])),
+        ("in-elem", e("section", vec![e("em", vec![]), sx(1, e("b", vec![t("inner")])), t("tail")]),
+            e("section", vec![e("em", vec![]), sx(1, e("b", vec![t("INNER")])), t("TAIL")])),
+        ("text-inner", V::Tuple(vec![e("em", vec![]), sx(1, t("inner")), e("i", vec![])]),
+            V::Tuple(vec![e("em", vec![]), sx(1, t("INNER")), e("i", vec![])])),
+        ("inner-last", V::Tuple(vec![t("o1"), sx(1, e("b", vec![]))]), V::Tuple(vec![t("O1"), sx(1, e("b", vec![]))])),
+        ("inner-only", sx(1, e("b", vec![t("x")])), sx(1, e("b", vec![t("y")]))),
+        ("two-inner", V::Vec(vec![sx(1, e("b", vec![t("p")])), e("hr", vec![]), sx(2, e("i", vec![t("q")]))]),
+            V::Vec(vec![sx(1, e("b", vec![t("P")])), e("hr", vec![]), sx(2, e("i", vec![t("Q")]))])),
+        ("keyed-inner", V::KeyedSusp(vec![(1, "a".into()), (2, "b".into())]), V::KeyedSusp(vec![(2, "b".into()), (1, "a".into())])),
+    ];
+    let n_orders: Vec<(&str, Vec<usize>, Vec<Vec<usize>>)> = vec![
+        ("outer-first", vec![], vec![vec![0], vec![], vec![1], vec![2]]),
+        ("inner-first", vec![], vec![vec![2, 1], vec![], vec![0]]),
+        ("together", vec![], vec![vec![], vec![0, 1, 2]]),
+        ("inner-ready", vec![1, 2], vec![vec![], vec![0]]),
+        ("outer-ready", vec![0], vec![vec![2], vec![1]]),
+        ("outer-then-rest", vec![], vec![vec![0]]),
+        ("rest", vec![], vec![]),
+    ];
+    for (cn, wrap) in containers.iter().filter(|c| ["top", "elem", "vec"].contains(&c.0)) {
+        for (bn, before) in &befores {
+            for (an, after) in &afters {
+                for (nn, va, vb) in &nested {
+                    let mk = |inner: &V| {
+                        let mut s = before.clone();
+                        s.push(sx(0, inner.clone()));
+                        s.extend(after.iter().cloned());
+                        wrap(s)
+                    };
+                    let (a, b) = (mk(va), mk(vb));
+                    for (on, d0, steps) in &n_orders {
+                        for mode in ["io", "ooo", "res"] {
+                            write_shyd(f, &format!("ss-suspn-{cn}-{bn}-{nn}-{an}-{on}-{mode}"), mode, d0, steps, &a, &b)?;
+                        }
                     }
                 }
             }
@@ -2454,9 +2704,49 @@ fn add_susp(r: &mut Rng, v: &V, next: &mut usize, p: usize) -> V {
     if wrap_here {
         let f = *next;
         *next += 1;
-        V::Susp(f, Box::new(v.clone()))
+        // now and then a `Suspend` inside the value (one level)
+        let val = if r.chance(1, 3) && !has_susp(v) {
+            let mut w = v.clone();
+            for _ in 0..3 {
+                let mut n2 = *next;
+                let cand = add_susp_flat(r, v, &mut n2);
+                if n2 > *next && n2 <= 6 && susp_depth(&cand) == 1 {
+                    *next = n2;
+                    w = cand;
+                    break;
+                }
+            }
+            w
+        } else {
+            v.clone()
+        };
+        V::Susp(f, Box::new(val))
     } else {
         inner(r, next)
+    }
+}
+
+/// wrap some nodes *below* the root of `v` in a `Suspend` (no nesting)
+fn add_susp_flat(r: &mut Rng, v: &V, next: &mut usize) -> V {
+    let wrap = |r: &mut Rng, k: &V, next: &mut usize| -> V {
+        if *next < 6 && r.chance(1, 2) && !has_susp(k) && !matches!(k, V::Inert(_)) {
+            *next += 1;
+            V::Susp(*next - 1, Box::new(k.clone()))
+        } else {
+            k.clone()
+        }
+    };
+    match v {
+        V::Elem { tag, attrs, kids } if tag != "textarea" && tag != "style" => {
+            V::Elem { tag: tag.clone(), attrs: attrs.clone(), kids: kids.iter().map(|k| wrap(r, k, next)).collect() }
+        }
+        V::Tuple(ks) => V::Tuple(ks.iter().map(|k| wrap(r, k, next)).collect()),
+        V::Vec(ks) => V::Vec(ks.iter().map(|k| wrap(r, k, next)).collect()),
+        V::Array(ks) => V::Array(ks.iter().map(|k| wrap(r, k, next)).collect()),
+        V::Some(x) => V::Some(Box::new(wrap(r, x, next))),
+        V::Right(x) => V::Right(Box::new(wrap(r, x, next))),
+        V::Owned(x) => V::Owned(Box::new(wrap(r, x, next))),
+        other => other.clone(),
     }
 }
 
@@ -2489,7 +2779,7 @@ fn gen_shyd(r: &mut Rng, a: &[V], depth: usize, f: &mut impl std::io::Write) -> 
         }
         let mut anc: Vec<&'static str> = vec![];
         let b: Vec<V> = a2.iter().map(|v| mutate(r, v, depth, &mut anc)).collect();
-        if b.iter().any(|v| matches!(v, V::Susp(_, x) if has_susp(x))) {
+        if b.iter().any(|v| susp_depth(v) > 2) {
             continue;
         }
         let mode = *r.pick(&["io", "io", "ooo", "ooo", "res", "sync"]);
